@@ -18,7 +18,8 @@ EXPLANATION = (
     ' and the captured group handed to the game is the whole label; (R5) typed coordinates are converted with square_string_to_bitboard'
     " (table checked under C19.R1). 'Accepted iff legal' as such is NOT decided (C01, C13). R1/R3 accept the first-match search as "
     'Iterator::find, as a helper function written as a first-match loop (finder summary), or as a for loop of the entry point itself '
-    '(non-matching iterations without effects, exhaustion = Err(InvalidMove)).'
+    '(non-matching iterations without effects, exhaustion = Err(InvalidMove)). R2: apply_chess_move applies its own parameter; (R6) '
+    'imports all clauses of C01; (R7) imports the label rules of C13.'
 )
 ASSUMPTIONS = [
     "a pawn move that does not capture is never ambiguous (two pawns of one colour reach the same square only by capturing)",
